@@ -283,6 +283,12 @@ func (g *c15Gen) client(slot, pi, di int) []Action {
 	if trunc || rver != 5 || rsv != 0 || cmd != 1 || !q.AtypKnown {
 		return early()
 	}
+	if answer != 0 && r.Intn(5) == 0 {
+		// the client gives up and leaves after the agent was told to connect and before the agent
+		// reports that it could not: the socket must be forgotten all the same
+		s = append(s, g.checkin(di), Action{Kind: "c-close", A: slot, C: r.Intn(2)}, g.checkin(di), g.checkin(di))
+		return s
+	}
 	s = append(s, g.checkin(di), g.checkin(di))
 	if answer != 0 {
 		s = append(s, g.checkin(di))
@@ -1442,6 +1448,13 @@ func (st *c15State) clientLate(c *c15Cli) {
 	if c.state == c15AnswerSent && c.answerDelivered {
 		q := c.req
 		switch {
+		case c.clientClosed && !c.loose && !c.killed && c.answer != 0 && c.hasID:
+			// the client had left before the agent reported that it could not connect: there is
+			// nobody to answer, but the socket is finished on both sides and must be forgotten
+			c.closeKind = "connect-failed-client-gone"
+			c.closing = true
+			c.expectGone = true
+			c.state = c15End
 		case c.loose || c.clientClosed || c.killed:
 			c.state = c15End
 		case c.answer == 0:
